@@ -168,6 +168,7 @@ def run_contract_path(c, reg, ctx):
     pr = PathResult()
     reg.current = fd.key
     reg.assert_mode = c.assert_mode
+    ctx.qf_feasibility = getattr(c, "qf_feasibility", False)
     fr, selfobj = make_inputs(it, c, fd)
     ctx.inputs = dict(fr.locals)
     if c.pre_hook:
